@@ -43,6 +43,7 @@ def scanner(name, extra_req='', extra_ens='', **kw):
 def build():
     SB = lex_stageb.entries()
     U = Unit('LEX', props=['C14', 'C01', 'C11', 'C15', 'C02', 'C12'])
+    U.default_closures = True     # rule-based D3/D16 (vlib/closures.py) applies to every function of this unit
     U.tag_loops = True     # loop invariants state property-relevant facts about abstractions: a failing one is reported
     f = U.file(L)
     f.item('struct', 'Token')
